@@ -37,6 +37,7 @@ static FILE *fout;          /* implementation observations */
 static FILE *fops;          /* ops log (gen mode) */
 static long ncb;
 static int last_ret;     /* return value of the last bool-returning parser call */
+static int use_cb = 1;   /* K 0: this case runs with NO callback installed (the observation then has "c-"): code that behaves differently when nobody listens */
 static void count_cb(binson_parser *p, uint16_t ns, void *ctx) { (void)p; (void)ns; (void)ctx; ncb++; }
 
 static void free_p(int k) { free(P[k].p); free(P[k].st); free(P[k].buf); memset(&P[k], 0, sizeof P[k]); }
@@ -81,8 +82,9 @@ static void pobs(int k, const char *ret) {
         default: break;
         }
     } else strcpy(v, "x");
-    fprintf(fout, "%s e%d d%zu u%zu t%d n%s %s c%ld%s", ret, (int)p->error_flags, binson_parser_get_depth(p),
-            p->buffer_used, t, nm, v, ncb, obs_suffix ? obs_suffix : "\n");
+    char cbs[32]; if (use_cb) sprintf(cbs, "c%ld", ncb); else strcpy(cbs, "c-");
+    fprintf(fout, "%s e%d d%zu u%zu t%d n%s %s %s%s", ret, (int)p->error_flags, binson_parser_get_depth(p),
+            p->buffer_used, t, nm, v, cbs, obs_suffix ? obs_suffix : "\n");
 }
 /* print / to_string install an internal callback for the duration of the call; one that is still installed when the
    call has returned would be invoked (with a dangling context) by every later call on this object - a carry-over (C12).
@@ -173,9 +175,11 @@ static void exec_line(const char *line_in) {
     ncb = 0;
 #define NEEDP if (!p) { fprintf(fout, "no-parser\n"); goto done; }
 #define NEEDW if (!wo->w) { fprintf(fout, "no-writer\n"); goto done; }
-#define BOOLOP(call) do { NEEDP; p->cb = count_cb; int r_ = (call); p->cb = NULL; last_ret = r_; sprintf(rb, "%d", r_); pobs(k, rb); } while (0)
+#define BOOLOP(call) do { NEEDP; p->cb = use_cb ? count_cb : NULL; int r_ = (call); p->cb = NULL; last_ret = r_; sprintf(rb, "%d", r_); pobs(k, rb); } while (0)
     if (!strcmp(op, "M")) { fprintf(fout, "M %s\n", na ? arg[0] : "-"); }
+    else if (!strcmp(op, "K")) { use_cb = na ? atoi(arg[0]) : 1; fprintf(fout, "K\n"); }
     else if (!strcmp(op, "C")) {
+        use_cb = 1;
         for (int i = 0; i < NOBJ; i++) { free_p(i); free_w(i); }
         fprintf(fout, "C %s\n", na ? arg[0] : "0");
     } else if (!strcmp(op, "P") && na >= 2) {
@@ -188,6 +192,12 @@ static void exec_line(const char *line_in) {
         fprintf(fout, "P %d f%u\n", md, (unsigned)o->st[0].flags);
     } else if (!strcmp(op, "I") && na >= 2) {
         NEEDP;
+        { uint8_t *nb0; size_t nl0 = unhex(arg[1], &nb0);
+          if (o->buf && nl0 == o->len && nl0 > 0 && na >= 3 && arg[2][0] == 's') {   /* "I <t> <hex> s": init again over the SAME memory (same pointer, same size), contents replaced */
+              memcpy(o->buf, nb0, nl0); free(nb0);
+              int r0 = arg[0][0] == 'a' ? binson_parser_init_array(p, o->buf, o->len) : binson_parser_init(p, o->buf, o->len);
+              sprintf(rb, "%d", r0); pobs(k, rb); goto done; }
+          free(nb0); }
         free(o->buf); o->len = unhex(arg[1], &o->buf);
         { uint8_t *ex = malloc(o->len ? o->len : 1); memcpy(ex, o->buf, o->len); free(o->buf); o->buf = ex; if (o->len == 0) { free(o->buf); o->buf = malloc(0); if (!o->buf) o->buf = malloc(1); } }
         int r = arg[0][0] == 'a' ? binson_parser_init_array(p, o->buf, o->len) : binson_parser_init(p, o->buf, o->len);
@@ -210,7 +220,7 @@ static void exec_line(const char *line_in) {
         uint8_t *nm; size_t nl = unhex(arg[0], &nm);
         char *z = malloc(nl + 1); memcpy(z, nm, nl); z[nl] = 0;
         uint8_t *ex = malloc(nl ? nl : 1); memcpy(ex, nm, nl);   /* exact-size, not NUL-terminated */
-        int r; p->cb = count_cb;
+        int r; p->cb = use_cb ? count_cb : NULL;
         if (!strcmp(op, "f")) r = binson_parser_field_with_length(p, (const char *)ex, nl);
         else if (!strcmp(op, "fz")) r = binson_parser_field(p, z);
         else if (!strcmp(op, "F")) r = binson_parser_field_ensure_with_length(p, (const char *)ex, nl, (binson_type)atoi(na >= 2 ? arg[1] : "0"));
@@ -229,7 +239,7 @@ static void exec_line(const char *line_in) {
         NEEDP; uint8_t *s; size_t sl = unhex(arg[0], &s); char *z = malloc(sl + 1); memcpy(z, s, sl); z[sl] = 0;
         sprintf(rb, "E%d", (int)binson_parser_string_equals(p, z)); free(s); free(z); pobs(k, rb);
     } else if (!strcmp(op, "gr")) {
-        NEEDP; bbuf raw; raw.bptr = NULL; raw.bsize = 0; p->cb = count_cb; int r = binson_parser_get_raw(p, &raw); p->cb = NULL; last_ret = r;
+        NEEDP; bbuf raw; raw.bptr = NULL; raw.bsize = 0; p->cb = use_cb ? count_cb : NULL; int r = binson_parser_get_raw(p, &raw); p->cb = NULL; last_ret = r;
         if (r) { char s[64]; span_out(s, o, &raw); sprintf(rb, "1R%s", s); } else strcpy(rb, "0R-");
         pobs(k, rb);
     } else if (!strcmp(op, "ts") && na >= 1) {
@@ -327,7 +337,7 @@ static void exec_line(const char *line_in) {
         else wobs(k, binson_writer_verify(wo->w));
     } else if (!strcmp(op, "dump")) { NEEDW; fputs("m", fout); if (wo->mem) memout(fout, wo->mem, wo->cap); else fputs("NULL", fout); fputc('\n', fout); }
     else if (!strcmp(op, "p2w")) {
-        NEEDP; NEEDW; p->cb = count_cb; int r = binson_parser_to_writer(p, wo->w); p->cb = NULL;
+        NEEDP; NEEDW; p->cb = use_cb ? count_cb : NULL; int r = binson_parser_to_writer(p, wo->w); p->cb = NULL;
         sprintf(rb, "%d", r); obs_suffix = " | "; pobs(k, rb); obs_suffix = NULL; wobs(k, r);
     } else if (!strcmp(op, "tr") && na >= 1) {
         /* transcribe parser @k (freshly reset) into a new writer @k of capacity <cap> */
@@ -571,7 +581,25 @@ static int obj_on_top(binson_parser *p) { return p->error_flags == BINSON_ERROR_
 static int stale_container(binson_parser *p) { int t = (int)binson_parser_get_type(p); return t == BINSON_TYPE_OBJECT || t == BINSON_TYPE_ARRAY; }
 /* protocol-following navigation guided only by the parser's own answers.
    finish: keep going until the root has been left (complete traversal). */
+static void nav_ops0(int k, int arr, int maxops, int finish, int all_getters, int lookups, int ensure);
+/* C09: wherever the traversal stopped on an error - also one raised outside the scanner (wrong type of an ensure call, a
+   name asked for where there is none) with the cursor standing anywhere, e.g. right before a closing byte - every advancing
+   call that follows must fail and move nothing, every getter must be neutral */
 static void nav_ops(int k, int arr, int maxops, int finish, int all_getters, int lookups, int ensure) {
+    binson_parser *p = P[k].p;
+    nav_ops0(k, arr, maxops, finish, all_getters, lookups, ensure);
+    if (p && p->error_flags != BINSON_ERROR_NONE) {
+        static const char *PROBE[] = { "lo", "la", "n", "io", "ia", "gr", "lo", "n", "gt", "gi", "gs", "gn" };
+        int np = 2 + (int)rn(4);
+        for (int i = 0; i < np; i++) {
+            int c = (int)rn(14);
+            if (c < 12) emit("@%d %s", k, PROBE[c]);
+            else if (c == 12) emit("@%d N %d", k, (int)rn(10));
+            else emit_field(k, "f", pick_name(), 0);
+        }
+    }
+}
+static void nav_ops0(int k, int arr, int maxops, int finish, int all_getters, int lookups, int ensure) {
     binson_parser *p = P[k].p; static char stack[600]; int sp = 0;
     emit("@%d %s", k, arr ? "ia" : "io");
     if (!last_ret || p->error_flags) return;
@@ -606,9 +634,10 @@ static void nav_ops(int k, int arr, int maxops, int finish, int all_getters, int
                            else if (!pending && W[k].w && chance(40) && !stale_container(p)) { emit("@%d p2w", k); emit("@%d wc", k); } }   /* not on a container: refused, nothing changes (writer included) */
         else if (x < 84) { const char *g = GETTERS[rn(top == 'o' ? 8 : 7)]; if (!strcmp(g, "gn") && !(p->current_state && p->current_state->current_name.bptr)) g = "gt"; emit("@%d %s", k, g); }
         else if (x < 86) { emit_se(k, "abc", 3); }
-        else if (x < 88) { if (pending && ensure) { emit("@%d N %d", k, (int)binson_parser_get_type(p)); } }   /* not protocol: next_ensure skips the pending one */
+        else if (x < 88) { if (pending && ensure) { emit("@%d N %d", k, (int)binson_parser_get_type(p)); }
+                           else if (!pending && ensure && chance(25)) { emit("@%d N %d", k, (int)rn(10)); advanced = 1; } }   /* not protocol: next_ensure skips the pending one; elsewhere it is next + a type check that may fail (WRONG_TYPE with the value consumed) */
         else { emit("@%d %s", k, top == 'o' ? "lo" : "la"); if (!last_ret) return; sp--; pending = 0; }
-        if (x >= 86 && x < 88 && ensure) { advanced = pending; }
+        if (x >= 86 && x < 88 && ensure && pending) { advanced = 1; }
         if (advanced) {
             pending = 0;
             if (p->error_flags == BINSON_ERROR_NONE && last_ret) {
@@ -706,7 +735,7 @@ static void gen_nav(long id, int all_getters) {
     int arr = chance(25);
     cont_bias = 45; gen_doc(&D, arr, 0, 3 + (int)rn(16)); cont_bias = 35;
     if (chance(4)) gen_longname_doc(&D, arr);
-    case_begin(id); new_parser(0, nav_md(&D, arr)); init_doc(0, arr, &D);
+    case_begin(id); if (chance(25)) emit("K 0"); new_parser(0, nav_md(&D, arr)); init_doc(0, arr, &D);
     if (chance(30)) emit("@0 W %u", 20 + rn(200));
     nav_ops(0, arr, 4 + (int)rn(40), chance(50), all_getters, 1, 1);
 }
@@ -892,8 +921,30 @@ static void gen_reuse(long id) {
     /* the document and script under test */
     arr = chance(25); gen_doc(&D, arr, chance(30), 2 + (int)rn(10));
     uint64_t save = S;
-    int how = (int)rn(4);
-    if (how == 3 && D.n >= 16 && D.n < 30000) {
+    int how = (int)rn(5);
+    if (how == 4) {
+        /* a document with a name-order defect (or any other) of the size of an earlier VALID document that the same object
+           verified successfully and partly read: the new bytes arrive in the same memory - init again over the same pointer
+           and size, or an in-place rewrite followed by reset - and a complete walk must stop where a fresh object stops */
+        if (chance(70)) { D.n = 0; fault_fired = 0; fault_kind = chance(50) ? F_DUP : F_DESC; fault_cd = (int)rn(3); big_ok = 0; { int b = 4 + (int)rn(10); if (arr) gen_array(&D, 0, &b); else gen_object(&D, 0, &b); } fault_kind = F_NONE; }
+    }
+    if (how == 4 && D.n >= 16 && D.n < 30000) {
+        Buf F = {0}; size_t n = D.n; size_t over = arr ? 9 : 12; size_t L = n - over; if (L >= 128) L -= 1;
+        put(&F, arr ? 0x42 : 0x40); if (!arr) { put(&F, 0x14); put(&F, 0x01); put(&F, 'a'); }
+        put(&F, 0x40); put(&F, 0x14); put(&F, 0x01); put(&F, 'z');
+        put_int(&F, 0x18, (int64_t)L, width_k((int64_t)L)); for (size_t i = 0; i < L; i++) put(&F, (uint8_t)r64());
+        put(&F, 0x41); put(&F, arr ? 0x43 : 0x41);
+        if (F.n == n) {
+            init_doc(0, arr, &F); emit("@0 v");
+            if (chance(50)) { emit("@0 %s", arr ? "ia" : "io"); emit("@0 n"); if (chance(50)) { emit("@0 io"); emit("@0 n"); } }
+            if (chance(30)) emit("@0 v");
+            char *h = hexs(D.b, D.n);
+            if (chance(50)) emit("@0 I %c %s s", arr ? 'a' : 'o', h); else { emit("@0 B %s", h); emit("@0 r"); }
+            free(h);
+        } else { init_doc(0, arr, &D); }
+        free(F.b);
+    }
+    else if (how == 3 && D.n >= 16 && D.n < 30000) {
         /* same object, same buffer memory: an earlier document of exactly the same size is traversed into a nested object,
            then the bytes are overwritten in place - a damaged frame first (reset fails), then the document under test */
         Buf F = {0}; size_t n = D.n; size_t over = arr ? 9 : 12; size_t L = n - over; if (L >= 128) L -= 1;
@@ -909,14 +960,14 @@ static void gen_reuse(long id) {
         } else { init_doc(0, arr, &D); }
         free(F.b);
     }
-    else if (how == 0 || how == 3) { init_doc(0, arr, &D); } else if (how == 1) { init_doc(0, arr, &D); emit("@0 n"); emit("@0 r"); } else { init_doc(0, arr, &D); emit("@0 v"); }
+    else if (how == 0 || how == 3 || how == 4) { init_doc(0, arr, &D); } else if (how == 1) { init_doc(0, arr, &D); emit("@0 n"); emit("@0 r"); } else { init_doc(0, arr, &D); emit("@0 v"); }
     int ops2 = (int)rn(20); uint64_t s2 = S;
-    emit("M a0"); for (int i = 0; i < ops2; i++) any_op(0); emit("M a1");
+    emit("M a0"); if (how == 4) walk_ops(0, arr); else for (int i = 0; i < ops2; i++) any_op(0); emit("M a1");
     (void)save;
     uint64_t s3 = S;
     new_parser(1, md); init_doc(1, arr, &D); if (how == 2) emit("@1 v");
     /* same op stream on the fresh object: re-derived from the same PRNG state */
-    S = s2; emit("M b0"); for (int i = 0; i < ops2; i++) any_op(1); emit("M b1"); S = s3; r64();
+    S = s2; emit("M b0"); if (how == 4) walk_ops(1, arr); else for (int i = 0; i < ops2; i++) any_op(1); emit("M b1"); S = s3; r64();
 }
 
 
@@ -1083,7 +1134,10 @@ int main(int argc, char **argv) {
             if (chance(4)) D.n = rn(3);
             if (chance(2)) { D.n = 0; gen_deep(&D, 8 + (int)rn(5), 0); }
             char *h = hexs(D.b, D.n);
-            fprintf(o, "C %ld\nxd%d%s %d %s\n", id, 1 + (int)rn(5), chance(40) ? "p" : "", chance(50) ? 0 : 200, h); free(h);
+            int kk = 1 + (int)rn(5), fill = chance(50) ? 0 : 200; const char *pre = chance(40) ? "p" : "";
+            if (id % 16 == 5) { free(h); D.n = 0; h = hexs(D.b, 0); kk = 1 + (int)(id / 16 % 2); fill = (id / 32 % 3 == 0) ? 200 : -1; }   /* nothing to parse at all: empty vector / (NULL, 0), over a poisoned stack or right after a successful call */
+            else if (id % 16 == 6) fill = -1;
+            fprintf(o, "C %ld\nxd%d%s %d %s\n", id, kk, pre, fill, h); free(h);
         }
         fclose(o); return 0;
     }
